@@ -160,6 +160,10 @@ def eval3(t, env):
         if any(v is None for v in vals):
             return None
         return all(vals) if isinstance(t.op, ast.And) else any(vals)
+    if isinstance(t, ast.Name) and isinstance(env.get(t.id), tuple) and env[t.id][0] == "bool":
+        return env[t.id][1]
+    if isinstance(t, ast.Constant) and isinstance(t.value, bool):
+        return t.value
     if isinstance(t, ast.Compare) and len(t.ops) == 1:
         l, r, op = t.left, t.comparators[0], t.ops[0]
         if isinstance(l, ast.Name) and l.id in env and isinstance(r, ast.Constant) and r.value is None \
@@ -205,7 +209,10 @@ def run_cases(stmts, env, outcomes, depth=0):
             if isinstance(st, ast.Assign) and len(st.targets) == 1 and isinstance(st.targets[0], ast.Name):
                 v = st.value
                 env = dict(env)
-                if isinstance(v, ast.Constant) and v.value is None:
+                b3 = eval3(v, env) if isinstance(v, (ast.Compare, ast.BoolOp, ast.UnaryOp)) else None
+                if b3 is not None:
+                    env[st.targets[0].id] = ("bool", b3)
+                elif isinstance(v, ast.Constant) and v.value is None:
                     env[st.targets[0].id] = "none"
                 elif isinstance(v, ast.Name) and v.id in env:
                     env[st.targets[0].id] = env[v.id]
@@ -543,7 +550,19 @@ def run(p, report, tier):
             owner = (f.cls if isinstance(f.cls, str) else getattr(f.cls, "name", None)) or f.module.name.split(".")[-1]
             report.add("R7.4", owner, f"`{norm_stmt(w, 70)}`", f"{f.file}:{w.lineno}", cls is not None,
                        detail=f"in {f.qual}: " + (cls + ": " if cls else "") + why)
-    for f in (sq, q, g, sa.methods.get("_n_to_assign_annotators"), ie):
+    # the annotator-assignment step (role: the helper that raises the per-sample annotator count with
+    # np.minimum in a loop) iterates a bounded `for`, or a `while` of a terminating class
+    na = c01.method_by_role(sa, "_n_to_assign_annotators", lambda n: c01._calls(n, {"minimum"}) and any(
+        isinstance(x, (ast.For, ast.While)) for x in ast.walk(n)))
+    if na is None:
+        raise AnalysisError("SingleAnnotatorWrapper: annotator-assignment helper vanished")
+    loops = [x for x in ast.walk(na.node) if isinstance(x, (ast.For, ast.While))]
+    bad_loops = [x for x in loops if isinstance(x, ast.While) and while_class(x, na.node)[0] is None]
+    report.add("R7.4", "SingleAnnotatorWrapper", "annotator-assignment step iterates a bounded loop", f"{na.file}:{na.node.lineno}",
+               bool(loops) and not bad_loops,
+               detail="; ".join(f"`{norm_stmt(x, 50)}` has no progress test" for x in bad_loops) or
+               "for-loop over a finite range / while loop of a terminating class")
+    for f in (sq, q, g, na, ie):
         if f is None:
             continue
         da = DefiniteAssignment(_it(f.node)).run()
